@@ -34,6 +34,7 @@ def must_see(tier):
             m['%s:%s' % (impl, e)] = 1
         m[impl + ':query-on-ghost-tree'] = 2000
         m[impl + ':index_after_first_negative_index'] = 200
+        m[impl + ':explore:state-queried'] = 200
     return m
 
 
@@ -60,6 +61,12 @@ def plan(tier, seed):
             specs.append(dict(label='%s-c-asan' % fam, family=fam, impl='c',
                               containers=30, seed=seed + 1000, tier=tier,
                               variant='asan', timeout=7200))
+    # systematic: the whole bound grid in EVERY reachable state of a small
+    # universe (vmon/explore.py)
+    from .. import explore
+    specs += explore.specs_for(ID, tier, seed, ['II', 'OO'],
+                               ['II', 'OO', 'fs', 'QQ', 'LF'], u_quick=5,
+                               u_thorough=6)
     return specs
 
 
@@ -113,6 +120,9 @@ def diagnose(impl, is_tree, method, mn, mx, emin, emax, keys, w, ro, mo):
 
 
 def run_shard(spec, rec):
+    if spec.get('explore'):
+        from .. import explore
+        return explore.run_shard(ID, spec, rec)
     fam = families.get(spec['family'])
     impl = spec['impl']
     quick = spec['tier'] == 'quick'
